@@ -243,6 +243,29 @@ def rule_merge(ck: Check, repo: Repo, rid: str = "R3") -> None:
         a = adds[0]
         if not re.match(r"make_copyright_line\(str\(\w+\['statement'\]\), ", a):
             r.violation(q, "merged notice is not built from the line's own statement", a[:120], repo.loc(out_loop))
+        # the year argument, cell by cell: no years -> None; all equal -> that year; otherwise min - max of ALL years
+        try:
+            call = ast.parse(a, mode="eval").body
+            ya = ast.unparse(call.args[1]) if len(call.args) > 1 else next((ast.unparse(k.value) for k in call.keywords if k.arg == "year"), "None")
+        except SyntaxError:
+            ya = "?"
+        ys = sorted({m for k in d for m in re.findall(r"\w+__after_loop", k)} | set(re.findall(r"\w+__after_loop", a)))
+        Y = ys[0] if len(ys) == 1 else None
+        hy = next((v for k, v in d.items() if Y and k.split("::")[-1] == f"?{Y}"), None)
+        sm = next((v for k, v in d.items() if Y and k.split("::")[-1] in (f"?min({Y}) == max({Y})", f"?max({Y}) == min({Y})", f"?len(set({Y})) == 1")), None)
+        if hy is False:
+            want_y = ["None"]
+        elif hy is True and sm is True:
+            want_y = [f"min({Y})", f"max({Y})", f"{Y}[0]"]
+        elif hy is True and sm is False:
+            want_y = [f"f'{{min({Y})}} - {{max({Y})}}'"]
+        else:
+            want_y = []
+        r.instance("year-cell:" + show_valuation(short), {"year_argument": ya, "accepted": want_y})
+        if ya not in want_y:
+            r.violation(q, f"merged year when [{show_valuation(short)}]",
+                        f"the notice gets year {ya}; the specification says {want_y or 'a value decided by: any years? / all equal?'}"
+                        f" - the merged range must span every stated year", repo.loc(out_loop), {"valuation": d})
     r.floor(1, "paths with a merged notice", got=adds_seen)
     from ..rules import has
     osrc = ast.unparse(fn)
@@ -251,8 +274,6 @@ def rule_merge(ck: Check, repo: Repo, rid: str = "R3") -> None:
         "same-statement group": has(osrc, "copyright_list = [item for item in copyright_in if item['statement'] == statement]", L)
         and has(osrc, "for line_info in copyright_in: statement = str(line_info['statement'])", L),
         "years of the whole group": has(osrc, "for copy in copyright_list: years += copy['year']", L),
-        "single year": has(osrc, "if min(years) == max(years): year = min(years)", L),
-        "range min - max": has(osrc, "year = f'{min(years)} - {max(years)}'", L),
     }
     for name, ok in checks.items():
         r.instance(name, {"ok": ok})
